@@ -9,7 +9,8 @@ RULE = ("pairs of closed polygonal curves (int/Fraction/float; crossing, nested,
         "edges, identical, reversed) x all four flag combinations x both operand orders, plus a curved stream "
         "(circle vs square / circle vs circle: soundness and count of transversal crossings only); non-trivial = "
         "at least one interior crossing; distinct = SHA-1 of the case")
-RULE_EXTRA = ("; a parabola arc against polygons in general position, int / Fraction / float control points: every closed-form "
+RULE_EXTRA = ("; a few-arc circle rotated by an arbitrary angle and moved, against random polygons: every closed-form crossing of "
+              "every arc with every edge reported, nothing else, B & A the swap of A & B; a parabola arc against polygons in general position, int / Fraction / float control points: every closed-form "
               "crossing reported once at the right parameters (1e-6), nothing else, even count, swap symmetry")
 RULE = RULE + RULE_EXTRA
 PROOF_STATUS = ("Props/C14.v: range, soundness, completeness for non-parallel segments, None = equal segments, swap, "
@@ -65,13 +66,29 @@ def cases(ctx):
         c = C.cap_case(rng)
         if c:
             yield dict(c, num=["frac", "float", "int"][i % 3])
+    # a circle of few arcs, ROTATED (so that arcs bulge beyond their end points in every direction) and moved, against
+    # polygons: crossings of every arc with every edge in closed form
+    for i in range(ctx.n(60, 400)):
+        r, c = rng.choice([1.0, 1.5, 2.0]), [rng.randint(-3, 3) / 2, rng.randint(-3, 3) / 2]
+        if i % 3 == 0:
+            poly = [[x / 10, y / 10] for x, y in ((rng.randint(-35, 35), rng.randint(-35, 35)) for _ in range(rng.choice([3, 4, 4])))]
+        else:
+            # a rectangle that clips a thin cap off the circle in one of eight directions (the extreme points of the
+            # circle in that direction lie on the bulge of an arc, not at its end points)
+            import math
+            phi = math.radians(45 * (i % 8))
+            ux, uy = math.cos(phi), math.sin(phi)
+            d0, d1, w = r * rng.choice([0.9, 0.95, 0.985]), 3 * r, 2 * r
+            poly = [[c[0] + d * ux - t * uy, c[1] + d * uy + t * ux] for d, t in ((d0, -w), (d1, -w), (d1, w), (d0, w))]
+        yield {"rotcircle": rng.choice([4, 5, 6, 8]), "angle": rng.choice([10, 25, 40, 60, 75, 100, 130, 200]) + rng.randint(0, 4),
+               "c": c, "r": r, "poly": poly}
     for i in range(ctx.n(3, 40)):
         yield {"curved": True, "r": rng.choice([1.0, 1.5, 0.8]), "c": [rng.uniform(-0.3, 0.3), rng.uniform(-0.3, 0.3)],
                "side": rng.choice([1.7, 2.2, 1.3]), "nd": rng.choice([4, 8, 16])}
 
 
 def nontrivial(case):
-    if case.get("curved") or "cap" in case:
+    if case.get("curved") or "cap" in case or "rotcircle" in case:
         return True
     return G.count_crossings([case["a"]], [case["b"]]) > 0
 
@@ -141,10 +158,91 @@ def _cap(ctx, case):
     return fails
 
 
+def _quad_line(P, a, b):
+    """crossings of the quadratic Bezier with control points P and the straight segment a->b:
+    [(t, s)] and a flag telling whether some root is too close to tangency / to an end to be counted safely"""
+    import math
+    nx, ny = -(b[1] - a[1]), b[0] - a[0]
+    g = [nx * (p[0] - a[0]) + ny * (p[1] - a[1]) for p in P]          # signed distances of the control points to the line
+    qa, qb, qc = g[0] - 2 * g[1] + g[2], 2 * (g[1] - g[0]), g[0]
+    out, safe = [], True
+    roots = []
+    if abs(qa) < 1e-12:
+        if abs(qb) > 1e-12:
+            roots = [-qc / qb]
+    else:
+        disc = qb * qb - 4 * qa * qc
+        if abs(disc) < 1e-4 * (qb * qb + abs(4 * qa * qc) + 1e-12):
+            safe = False
+        if disc > 0:
+            r = math.sqrt(disc)
+            roots = [(-qb - r) / (2 * qa), (-qb + r) / (2 * qa)]
+    L2 = (b[0] - a[0]) ** 2 + (b[1] - a[1]) ** 2
+    for t in roots:
+        x = P[0][0] * (1 - t) ** 2 + 2 * P[1][0] * t * (1 - t) + P[2][0] * t * t
+        y = P[0][1] * (1 - t) ** 2 + 2 * P[1][1] * t * (1 - t) + P[2][1] * t * t
+        sp = ((x - a[0]) * (b[0] - a[0]) + (y - a[1]) * (b[1] - a[1])) / L2
+        if min(abs(t), abs(t - 1), abs(sp), abs(sp - 1)) < 1e-3:
+            safe = False
+        if 0 < t < 1 and 0 < sp < 1:
+            out.append((t, sp))
+    return out, safe
+
+
+def _rotcircle(ctx, case):
+    import math
+    fails = []
+    vs = [(float(x), float(y)) for x, y in case["poly"]]
+    if not G.is_simple_polygon([(F(x), F(y)) for x, y in vs]):
+        return fails
+    C = I.Primitive.circle(case["r"], (0.0, 0.0), case["rotcircle"])
+    C.rotate(case["angle"], degrees=True)
+    C.move(case["c"][0], case["c"][1])
+    JA = C.jordans[0]
+    JB = I.JordanCurve.from_vertices(vs)
+    want, safe = [], True
+    for ia, sg in enumerate(JA.segments):
+        P = [(float(p[0]), float(p[1])) for p in sg.ctrlpoints]
+        if len(P) != 3:
+            return fails
+        for ib in range(len(vs)):
+            rs, ok = _quad_line(P, vs[ib], vs[(ib + 1) % len(vs)])
+            safe = safe and ok
+            want += [(ia, ib, t, sp) for t, sp in rs]
+    if not safe:
+        ctx.count("rotcircle:skipped (near tangency / ends)")
+        return fails
+    ctx.count("rotcircle:crossings=%d" % len(want))
+    try:
+        with U.time_limit(120):
+            ri = I.outcome(lambda: (JA.intersection(JB), JB.intersection(JA)))
+    except U.Timeout:
+        return [Fail(kind="O", what="curved intersection does not return (120 s)")]
+    if ri[0] != "ok":
+        return [Fail(kind="O", what="curved intersection raised", impl=ri)]
+    rows, swapped = ri[1]
+    got = [r for r in rows if r[2] is not None]
+    gsw = [r for r in swapped if r[2] is not None]
+    match = lambda w, r: w[0] == r[0] and w[1] == r[1] and abs(w[2] - float(r[2])) < 1e-5 and abs(w[3] - float(r[3])) < 1e-5
+    missing = [w for w in want if not any(match(w, r) for r in got)]
+    extra = [r for r in got if not any(match(w, r) for w in want)]
+    if missing:
+        fails.append(Fail(kind="O", what="%d of %d crossings of the rotated circle with the polygon are not reported" % (len(missing), len(want)),
+                          expected=[list(w) for w in missing[:3]]))
+    if extra:
+        fails.append(Fail(kind="O", what="reported crossings that do not exist", impl=[repr(r) for r in extra[:3]]))
+    msw = [w for w in want if not any(match((w[1], w[0], w[3], w[2]), r) for r in gsw)]
+    if msw or len(gsw) != len(got):
+        fails.append(Fail(kind="O", what="B & A is not the swap of A & B (%d vs %d rows)" % (len(gsw), len(got))))
+    return fails
+
+
 def check(ctx, case):
     fails = []
     if "cap" in case:
         return _cap(ctx, case)
+    if "rotcircle" in case:
+        return _rotcircle(ctx, case)
     if case.get("curved"):
         C = I.Primitive.circle(case["r"], tuple(case["c"]), case["nd"])
         S = I.Primitive.square(case["side"])
